@@ -755,14 +755,10 @@ func (vfs *OrefaFS) RemoveAll(path string) error {
 		return &fs.PathError{Op: op, Path: path, Err: vfs.err.InvalidArgument}
 	}
 
-	if child.mode.IsDir() {
-		vfs.removeAll(absPath, child)
-	}
-
-	child.remove()
+	// removeAll removes child and everything below it from the node map.
+	vfs.removeAll(absPath, child)
 
 	delete(parent.children, fileName)
-	delete(vfs.nodes, absPath)
 
 	return nil
 }
